@@ -70,3 +70,22 @@ CHECKS["C02"] = {
     "assumptions": ["printable tokens from a fixed small alphabet stand for arbitrary printable text of the same character classes",
                     "files longer than N lines are not covered"],
 }
+
+CHECKS["C05"] = {
+    "engine": "E1",
+    "technique": "bounded exhaustive differential enumeration: every comment-line text up to length L over the structural alphabet inserted at every position of every small conventional file, real parser on both",
+    "level_text": "for all 21 delimiter/comment configurations, every base file of <= N lines over one line of each kind, every insertion point, "
+                  "every indentation, every comment character and EVERY text of length <= L over {comment chars, delimiters, blank, quote, brackets, letter, =} "
+                  "is parsed with and without the line by the real code; listings must be identical and both reads must succeed",
+    "level_note": "bounded: N<=2, L<=3 (quick) / L<=4 and N<=3 with L<=3 (thorough); trusted: only the equality test (differential, no hand-written expectation)",
+    "rule": "case = (configuration, base file, insertion point, indentation, comment char, text); non-trivial = text contains a structural character, or the line "
+            "is indented, or it directly follows an entry line; distinct by construction",
+    "deadline": {"quick": 100, "thorough": 1200},
+    "parts": [
+        {"name": "insert", "harness": "c05", "variant": "asan", "quick": ["--p0", 2, "--p1", 3], "thorough": ["--p0", 2, "--p1", 4],
+         "deadline_share": 0.6, "floor": {"quick": 100000, "thorough": 1000000}},
+        {"name": "insert-3lines", "harness": "c05", "variant": "asan", "tiers": ["thorough"], "thorough": ["--p0", 3, "--p1", 3],
+         "deadline_share": 0.4, "floor": {"thorough": 1000000}},
+    ],
+    "assumptions": ["base files use one representative token per line kind; the neighbourhood of the inserted line (kind of previous/next line) is what the parser's comment and continuation logic depends on"],
+}
